@@ -11,8 +11,11 @@
    `model_verdict ps` (Model/VerdictModel.v) is what run_test computes when every query is
    answered truthfully: the generated chain applied to Counter(results), len(stuck), normal.
    `run early_exit ps sched` executes the small-step model of run_test (main loop steps and
-   solver callbacks interleaved as the event list `sched` dictates); `result` is the
-   TestResult (label, exitcode) once the main loop and all callbacks are over.
+   solver callbacks interleaved as the event list `sched` dictates; EvMainRaise = a main-loop step
+   in which the synchronous solve of a stuck path fails by raising instead of returning an `err`
+   output); `result` is the TestResult (label, exitcode) once the main loop and all callbacks are
+   over.  How the stuck arm treats an exception of that solve (escapes / break / from_error output)
+   is regenerated from the source as stuck_shutdown_escapes, stuck_exception_escapes.
 
    --cache-solver (Model/VerdictCacheModel.v; Gen/GenUnsatCore.v = check_unsat_cores and the
    cache_solver switch of from_result, Gen/GenCoreAppend.v = the guard under which the callback
@@ -88,80 +91,44 @@ Theorem C05_perm_outputs : forall outs outs' nstuck normal,
 Proof. exact verdict_of_perm. Qed.
 Print Assumptions C05_perm_outputs.
 
-(* schedules, without --early-exit: whatever the interleaving of main-loop steps and solver
-   callbacks, a finished run reports exactly model_verdict, whose label is the specified one --
-   provided no synchronous stuck-path solve raises (EvMainRaise: a failed solver call that
-   surfaces as an exception instead of an `err` result) *)
-Theorem C05_schedule : forall ps sched r,
-  ~ In EvMainRaise sched ->
-  result (run false ps sched) = Some r -> r = model_verdict ps /\ fst r = spec_verdict ps.
-Proof. exact schedule_no_early_exit. Qed.
-Print Assumptions C05_schedule.
+(* schedules, at full strength: whatever the interleaving of main-loop steps, solver callbacks and
+   stuck-path solves that fail by raising (EvMainRaise), with or without --early-exit, a finished run
+   reports exactly model_verdict, whose label is the specified one.  (Before fix e923044 this failed
+   on two schedules: a ShutdownError, or any other exception, of the synchronous stuck-path solve left
+   run_test and the test was reported ERROR / Exitcode.EXCEPTION although another path had a valid
+   counterexample.) *)
+Theorem C05_schedule_full : forall ee ps sched r,
+  result (run ee ps sched) = Some r -> r = model_verdict ps /\ fst r = spec_verdict ps.
+Proof. exact schedule_full. Qed.
+Print Assumptions C05_schedule_full.
 
-(* with or without --early-exit, for every interleaving in which no stuck-path solve raises on
-   its own: either the result is exactly model_verdict, or --early-exit is on, the specified
-   verdict is FAIL, some path is stuck and the test is reported as having raised
-   (ERROR / Exitcode.EXCEPTION) *)
-Theorem C05_schedule_early_exit_partial : forall ee ps sched r,
-  ~ In EvMainRaise sched ->
-  result (run ee ps sched) = Some r ->
-  r = model_verdict ps \/
-  (ee = true /\ spec_verdict ps = LFail /\ r = (raised_label, raised_exitcode) /\
-   exists p, In p ps /\ kind p = Stuck).
-Proof. exact schedule_sound. Qed.
-Print Assumptions C05_schedule_early_exit_partial.
+(* run_test is never left through an exception: the state "raised" is unreachable *)
+Theorem C05_never_raises : forall ee ps sched, mst (run ee ps sched) <> MCrashed.
+Proof. exact never_crashes. Qed.
+Print Assumptions C05_never_raises.
 
-(* every schedule, including raising stuck-path solves: the only other outcome is "raised" for a
-   test that has a stuck path whose solver call failed *)
-Theorem C05_schedule_any_partial : forall ee ps sched r,
-  result (run ee ps sched) = Some r ->
-  r = model_verdict ps \/
-  (ee = true /\ spec_verdict ps = LFail /\ r = (raised_label, raised_exitcode) /\
-   exists p, In p ps /\ kind p = Stuck) \/
-  (r = (raised_label, raised_exitcode) /\ exists p, In p ps /\ kind p = Stuck /\ ans p = Err).
-Proof. exact schedule_sound_any. Qed.
-Print Assumptions C05_schedule_any_partial.
+(* an exception of the stuck-path solve never changes anything for the other paths: the run is, state
+   for state, the run in which that solve returned an `err` output instead *)
+Theorem C05_stuck_solve_exception_harmless : forall ee ps sched,
+  run ee ps sched = run ee ps (map (fun e => match e with EvMainRaise => EvMain | _ => e end) sched).
+Proof. exact run_unraise. Qed.
+Print Assumptions C05_stuck_solve_exception_harmless.
 
-(* ... hence no deviation at all when no path is stuck *)
-Theorem C05_schedule_no_stuck : forall ee ps sched r,
-  (forall p, In p ps -> kind p <> Stuck) ->
-  result (run ee ps sched) = Some r -> r = model_verdict ps.
-Proof. exact schedule_no_stuck. Qed.
-Print Assumptions C05_schedule_no_stuck.
+(* the executor was shut down (--early-exit, valid counterexample) after the main loop's check and
+   before the synchronous solve of a stuck path: the path loop ends, exactly as for assertion queries *)
+Theorem C05_stuck_solve_shutdown_ends_loop : forall s p rest,
+  mst s = MBody -> todo s = p :: rest -> kind p = Stuck -> flag s = true ->
+  step_main s = set_mst s MDone.
+Proof. exact shutdown_ends_loop. Qed.
+Print Assumptions C05_stuck_solve_shutdown_ends_loop.
 
-(* ... and PASS is never affected: under every schedule and both settings of --early-exit the
+(* in particular PASS is never affected: under every schedule and both settings of --early-exit the
    reported label is PASS (the exit code 0) iff the specification says PASS *)
 Theorem C05_failsafe_any_schedule : forall ee ps sched r,
   result (run ee ps sched) = Some r ->
   (fst r = LPass <-> spec_verdict ps = LPass) /\ (snd r = EX_PASS <-> spec_verdict ps = LPass).
 Proof. exact schedule_failsafe. Qed.
 Print Assumptions C05_failsafe_any_schedule.
-
-(* the full statement "final verdict = specified verdict for every schedule, with and without
-   --early-exit" is FALSE of the code: path 0 panics (solver: sat, valid model), path 1 is stuck;
-   the main loop reads the shutdown flag (not set) for path 1, then the callback of path 0 records
-   the counterexample and shuts the executor down, then the synchronous solve of the stuck path
-   hits ShutdownError, which leaves run_test: the test is reported ERROR instead of FAIL *)
-Theorem C05_schedule_refuted :
-  exists ps sched r,
-    result (run true ps sched) = Some r /\ spec_verdict ps = LFail /\ r = (LError, EX_EXCEPTION).
-Proof.
-  exists [mkpath Panic (Sat true); mkpath Stuck (Sat true)], [EvMain; EvMain; EvMain; EvCb 0; EvMain], (LError, EX_EXCEPTION).
-  repeat split; reflexivity.
-Qed.
-Print Assumptions C05_schedule_refuted.
-
-(* the same without --early-exit: path 0 panics (sat, valid model), path 1 is stuck and its
-   solver call fails inside solve_low_level (e.g. a sat answer whose model text cannot be
-   parsed): the exception leaves run_test, ERROR instead of FAIL *)
-Theorem C05_schedule_refuted_no_early_exit :
-  exists ps sched r,
-    result (run false ps sched) = Some r /\ spec_verdict ps = LFail /\ r = (LError, EX_EXCEPTION).
-Proof.
-  exists [mkpath Panic (Sat true); mkpath Stuck Err], [EvMain; EvMain; EvMain; EvMainRaise], (LError, EX_EXCEPTION).
-  repeat split; reflexivity.
-Qed.
-Print Assumptions C05_schedule_refuted_no_early_exit.
 
 (* ---------------------------------------------------------------- --cache-solver: the answer to a
    query may come from the shared core list, i.e. depend on which callbacks ran before the
@@ -185,32 +152,17 @@ Theorem C05_cache_refines : forall cache ee qs sched,
 Proof. exact cache_refines. Qed.
 Print Assumptions C05_cache_refines.
 
-(* in particular: without --early-exit the verdict is the specified one for every order in which
-   solver answers arrive and are consumed, cache on or off *)
-Theorem C05_cache_schedule : forall cache qs sched r,
-  (cache = true ->
-   forall p q c, In p qs -> In q qs -> potential (base p) = true -> potential (base q) = true ->
-     ans (base p) = Unsat -> qcore p = Some c -> c <> [] ->
-     (forall x, In x c -> In x (qids q)) -> ans (base q) = Unsat) ->
-  ~ In CMainRaise sched ->
-  cresult (crun cache false qs sched) = Some r ->
-  r = model_verdict (map base qs) /\ fst r = spec_verdict (map base qs).
-Proof. exact cache_schedule_no_early_exit. Qed.
-Print Assumptions C05_cache_schedule.
-
-(* all schedules, with and without --early-exit: the same three outcomes as without the cache *)
-Theorem C05_cache_schedule_any_partial : forall cache ee qs sched r,
+(* in particular the verdict is the specified one for every order in which solver answers arrive and
+   are consumed, cache on or off, with or without --early-exit *)
+Theorem C05_cache_schedule_full : forall cache ee qs sched r,
   (cache = true ->
    forall p q c, In p qs -> In q qs -> potential (base p) = true -> potential (base q) = true ->
      ans (base p) = Unsat -> qcore p = Some c -> c <> [] ->
      (forall x, In x c -> In x (qids q)) -> ans (base q) = Unsat) ->
   cresult (crun cache ee qs sched) = Some r ->
-  r = model_verdict (map base qs) \/
-  (ee = true /\ spec_verdict (map base qs) = LFail /\ r = (raised_label, raised_exitcode) /\
-   exists p, In p (map base qs) /\ kind p = Stuck) \/
-  (r = (raised_label, raised_exitcode) /\ exists p, In p (map base qs) /\ kind p = Stuck /\ ans p = Err).
-Proof. exact cache_schedule_any. Qed.
-Print Assumptions C05_cache_schedule_any_partial.
+  r = model_verdict (map base qs) /\ fst r = spec_verdict (map base qs).
+Proof. exact cache_schedule_full. Qed.
+Print Assumptions C05_cache_schedule_full.
 
 (* PASS is never affected by the cache or the schedule *)
 Theorem C05_cache_failsafe : forall cache ee qs sched r,
@@ -338,6 +290,18 @@ Print Assumptions C05_label_code.
 (* non-vacuity: a four-path test (success, revert, panic answered unsat, stuck refuted) passes under a
    schedule where the callback arrives between main-loop steps; turning the panic's answer into
    a timeout gives TIMEOUT; a raised test makes the process exit code 1 *)
+(* the two interleavings that refuted the statement before the fix: path 0 panics (sat, valid model),
+   path 1 is stuck; (1) --early-exit, the callback of path 0 runs between the flag check and the body
+   of path 1; (2) the stuck-path solve raises.  Both are FAIL now. *)
+Example C05_former_counterexamples :
+  result (run true [mkpath Panic (Sat true); mkpath Stuck (Sat true)] [EvMain; EvMain; EvMain; EvCb 0; EvMain])
+    = Some (LFail, EX_COUNTEREXAMPLE) /\
+  result (run false [mkpath Panic (Sat true); mkpath Stuck Err] [EvMain; EvMain; EvMain; EvMainRaise; EvMain; EvCb 0])
+    = Some (LFail, EX_COUNTEREXAMPLE) /\
+  result (run false [mkpath Stuck Err; mkpath Success Unsat] [EvMain; EvMainRaise; EvMain; EvMain; EvMain])
+    = Some (LError, EX_STUCK).
+Proof. repeat split; reflexivity. Qed.
+
 Example C05_nonvacuous :
   let ps := [mkpath Success Unsat; mkpath Revert Unsat; mkpath Panic Unsat; mkpath Stuck Unsat] in
   let sched := [EvMain; EvMain; EvMain; EvMain; EvMain; EvMain; EvCb 2; EvMain; EvMain; EvMain] in
